@@ -19,7 +19,8 @@ CLAUSES = [
     ("the capacity / bar-length expressions of Bar, the bar splitter and the tokeniser are int-typed and equal the model's floor division (PyNum); int()/round() always return ints",
      ["SCoda.C11.barCapacityPy_int", "SCoda.C11.splitBarLenPy_int", "SCoda.C11.tokCapacityPy_int", "SCoda.C11.barCapacityPy_eq",
       "SCoda.C11.splitBarLenPy_eq", "SCoda.C11.tokCapacityPy_eq", "SCoda.C11.pyround_int", "SCoda.C11.pyint_int"]),
-    ("the evaluated default step sizes, note values and velocity bins are int-typed (values computed by the real functions at generation time)",
+    ("generated fact: the default step sizes, note values and velocity bins returned by the real helper functions at generation time are all "
+     "of Python type int (the booleans are computed by the translator; the theorem only re-reads them)",
      ["SCoda.C11.defaults_int_typed"]),
 ]
 RULE = ("histories of <=6 (quick) / <=12 (thorough) public operations over integer-tick inputs, then bars (short, unequal "
